@@ -341,10 +341,13 @@ class Expander:
             r.features.add('dotdot-href')
             # does the un-normalised path name a directory that does not exist?  (RFC 3986 removes dot segments lexically)
             cur = n.base[:n.base.rfind('/') + 1]
-            for seg in href.split('/')[:-1]:
+            segs = href.split('/')[:-1]
+            for k, seg in enumerate(segs):
                 cur = join(cur, seg + '/')
-                if seg not in ('.', '..') and not any((VROOT + k).startswith(cur) for k in self.files):
+                if seg not in ('.', '..') and '..' in segs[k + 1:] and not any((VROOT + f).startswith(cur) for f in self.files):
                     r.features.add('href-dot-segments-through-missing-directory')
+            if '/./../' in '/' + href:
+                r.features.add('href-dot-segment-before-dotdot')
         fb = fallbacks[0] if fallbacks else None
         try:
             if parse == 'xml':
@@ -480,7 +483,7 @@ WIDE_SNIPS = ['€中文 ', '\U0001F600\U00010348 ']
 PROFILES = [  # (name, weight)
     ('main', 46), ('deep', 8), ('text', 10), ('fallback', 10), ('cycle', 9), ('invalid', 9), ('docenc', 2),
     ('xmlbase-root', 1), ('xmlbase-inner', 1), ('xmlbase-included-root', 1), ('dtd-included', 1), ('doctype-plain', 1),
-    ('unused-fb-include', 1), ('dotseg-missing-dir', 1), ('bigtext', 1), ('bigtext-multibyte', 1), ('badtext', 1), ('docelem', 1), ('nwf', 1),
+    ('unused-fb-include', 1), ('dotseg', 2), ('bigtext', 1), ('bigtext-multibyte', 1), ('badtext', 1), ('docelem', 1), ('nwf', 1),
 ]
 
 INVALID_KINDS = ['bad-parse-value', 'xpointer-with-text', 'xpointer-unsupported', 'multiple-fallback', 'multiple-fallback-missing', 'orphan-fallback',
@@ -545,20 +548,27 @@ class _Gen:
         fd = posixpath.dirname(frm)
         h = posixpath.relpath(to, fd or '.')
         x = r.random()
-        if x < 0.08:
+        if self.profile == 'dotseg' and x < 0.7:
+            if self.g.meta.setdefault('dotseg', r.choice(['missing-dir', 'dot-dotdot'])) == 'missing-dir':
+                # dot segments are removed lexically (RFC 3986 5.2.4): the directory named before '..' need not exist
+                if not h.startswith('..'):
+                    via = r.choice(['nonexistent', 'no/such'])
+                    h = via + '/..' * (via.count('/') + 1) + '/' + h
+            elif h.startswith('../'):
+                h = './' + h                       # a '.' segment directly before '..'
+            else:
+                via = r.choice([d for d in self.dirs if d] or ['.'])
+                h = posixpath.relpath(via, fd or '.') + '/./' + posixpath.relpath(to, via)
+        elif x < 0.08 and not h.startswith('..'):
             h = './' + h
         elif x < 0.16:
             # detour through another directory of the graph (all of them exist on disk)
             via = r.choice(self.dirs)
-            if via:
+            if via and via != fd:
                 h = posixpath.relpath(via, fd or '.') + '/' + posixpath.relpath(to, via)
         elif x < 0.22 and fd:
             # climb one level more than necessary and come back
             h = '../' + posixpath.basename(fd) + '/' + h
-        elif self.profile == 'dotseg-missing-dir' and not h.startswith('..'):
-            # dot segments are removed lexically (RFC 3986 5.2.4): the directory named before '..' need not exist
-            via = r.choice(['nonexistent', 'no/such'])
-            h = via + '/..' * (via.count('/') + 1) + '/' + h
         return h
 
     # ---- leaves
